@@ -101,11 +101,40 @@ def write_order(ctx):
                    '{} runs after the build file was truncated: an '
                    'exception in rule emission destroys the previous build '
                    'file'.format(callee))
-        inside = [c for c in Q.calls(op, nested=False)
-                  if unparse(c.func) == 'buildfile.write']
-        ctx.ob(R, b + '.write|buildfile.write-inside-open', len(inside) == 1,
-               op, 'the build file content is not written inside the with '
-               'block')
+        # (d) the file is rendered completely before it is opened: nothing
+        # that can raise for script-dependent reasons (escape_str rejects a
+        # line break, unknown fragment types, ...) may run between the
+        # truncation and the end of the write
+        renders = [c for c in Q.calls(w.node, nested=False)
+                   if unparse(c.func) == 'buildfile.write']
+        ctx.ob(R, b + '.write|build-file-rendered', len(renders) == 1, w.node,
+               'the build file content is not produced by buildfile.write')
+        inside_calls = [c for st_ in op.body for c in ast.walk(st_)
+                        if isinstance(c, ast.Call)]
+        risky = []
+        for c in inside_calls:
+            t = unparse(c.func)
+            if t.endswith('.getvalue') or (t.endswith('.write') and
+                                           t != 'buildfile.write'):
+                continue
+            risky.append(c)
+        reach_raise = []
+        if risky:
+            bf = {'make': 'bfg9000.backends.make.syntax:Makefile.write',
+                  'ninja': 'bfg9000.backends.ninja.syntax:NinjaFile.write'}[b]
+            if repo.has_func(bf):
+                for fq, (d, path) in cg.reachable(
+                        [repo.func(bf)], 6).items():
+                    for n_ in ast.walk(repo.functions[fq].node):
+                        if isinstance(n_, ast.Raise):
+                            reach_raise.append((fq, n_))
+        ctx.ob(R, b + '.write|nothing-can-raise-while-file-is-truncated',
+               not risky, op,
+               'calls run while the build file is open for writing (already '
+               'truncated): {}; they reach {} raise statements (e.g. {}), so '
+               'an emission error leaves a truncated build file'.format(
+                   [unparse(c)[:40] for c in risky], len(reach_raise),
+                   reach_raise[0][0] if reach_raise else '-'))
         # (c) ordered persistent writes before the build file
         hooks = [(h, 'pre') for h in reg.hooks[b]['pre']] + \
             [(h, 'post') for h in reg.hooks[b]['post']] + \
